@@ -49,6 +49,7 @@ type Contract struct {
 	NoInline bool
 	Inline   bool // callers execute the body instead of using the contract
 	Steps    map[int][]*Clause // loop ordinal → two-state clauses checked at back edges
+	Stable   map[string]bool   // ensures labels assumed by the spawner after the join
 }
 
 type ghostDecl struct {
@@ -123,7 +124,7 @@ func (w *World) parseContracts(pkgs []*packages.Package) error {
 }
 
 var keywords = map[string]bool{"func": true, "closure": true, "assume": true, "requires": true, "ensures": true, "modifies": true, "loop": true,
-	"safety": true, "ghost": true, "monitor": true, "inv": true, "spawn": true, "pure": true, "note": true, "cover": true, "lemma": true, "iface": true, "noinline": true, "trusted": true, "inline": true}
+	"safety": true, "ghost": true, "monitor": true, "inv": true, "spawn": true, "pure": true, "note": true, "cover": true, "lemma": true, "iface": true, "noinline": true, "trusted": true, "inline": true, "stable": true}
 
 func firstWord(s string) string {
 	s = strings.TrimSpace(s)
@@ -248,6 +249,13 @@ func (w *World) parseContractLines(sp *ssa.Package, lines, poss []string) error 
 			cur.TrustWhy = rest
 		case "pure":
 			cur.Pure = true
+		case "stable":
+			if cur.Stable == nil {
+				cur.Stable = map[string]bool{}
+			}
+			for _, l := range strings.Fields(strings.ReplaceAll(rest, ",", " ")) {
+				cur.Stable[l] = true
+			}
 		case "noinline":
 			cur.NoInline = true
 		case "inline":
